@@ -1877,13 +1877,16 @@ class Data(BaseCartesianData):
             # only the result within the view is returned.
             if not isinstance(axis, tuple):
                 axis = (axis,)
-            result_slices = tuple([subarray_slices[idim] for idim in range(self.ndim) if idim not in axis])
+            # Note that subarray_slices has one entry per dimension of the mask,
+            # which has fewer dimensions than the data if the view contains
+            # scalars (and axis then refers to the dimensions of the mask).
+            result_slices = tuple([subarray_slices[idim] for idim in range(len(subarray_slices)) if idim not in axis])
 
             if chunk_view is None:
                 full_shape = [self.shape[idim] for idim in range(self.ndim) if idim not in axis]
             else:
                 chunk_shape = subset_state.to_mask(self, chunk_view).shape
-                full_shape = [chunk_shape[idim] for idim in range(self.ndim) if idim not in axis]
+                full_shape = [chunk_shape[idim] for idim in range(len(chunk_shape)) if idim not in axis]
 
             full_result = np.zeros(full_shape) * np.nan
             full_result[result_slices] = result
